@@ -132,6 +132,10 @@ pub fn gen_i32_value(rng: &mut Rng, k: &Knobs) -> i32 {
     }
     if rng.chance(0.1) {
         *rng.pick(&[-(1 << 20), 1 << 20, 0, -1, 1])
+    } else if rng.chance(0.04) {
+        // odd integers between 2^23 and 2^24: exact in f32, and exactly half-way cases for
+        // "add one half and truncate" style rounding
+        *rng.pick(&[8_388_609, 9_000_001, 11_111_111, 16_777_215, -9_000_001, -16_000_001])
     } else if k.value_style == 0 {
         rng.range(-100, 100) as i32
     } else {
@@ -210,7 +214,7 @@ pub fn gen_repeat(rng: &mut Rng, k: &Knobs) -> Rep {
     }
     if rng.chance(0.02) {
         // boundary repeat counts are legal everywhere, not only in the C20 domain
-        return Rep::Times(*rng.pick(&[u32::MAX, u32::MAX - 1, 1 << 24, 1000]));
+        return Rep::Times(*rng.pick(&[u32::MAX, u32::MAX - 1, 1 << 24, 1000, (1 << 24) + 1, (1 << 24) + 3, (1 << 25) + 2, 100_000_001]));
     }
     if rng.chance(k.p_infinite) {
         Rep::Infinite
